@@ -412,3 +412,14 @@ def r2b(ctx):
     for r in c03.r1(ctx):
         r.rule = "C13-R2b"
         yield r
+
+
+import c02  # noqa: E402
+
+
+@M.rule("C13-R2c", "rules 6a / 7a decide by full equality with AWS4-HMAC-SHA256 (shared with C02-R3)")
+def r2c(ctx):
+    for r in c02.r3(ctx):
+        if "algorithm-gate" in r.key or r.status != "PASS":
+            r.rule = "C13-R2c"
+            yield r
